@@ -101,13 +101,23 @@ def nontrivial(r):
     return (k.get('acquired', 0) + k.get('late_result', 0)) >= 1 and len(r['log']) >= 3
 
 
+def headline(problems):
+    """prefer the record that is the property text itself (two clients hold one lock at one instant)"""
+    for p in problems:
+        if 'holds it on the original replica' in p or 'both consider lock' in p or 'at the same instant' in p:
+            return p
+    return problems[0]
+
+
 def report_problems(ctx, results):
     n = 0
+    # cases whose records include a mutual-exclusion clash first
+    results = sorted(results, key=lambda r: 0 if r.get('problems') and headline(r['problems']) != r['problems'][0] else 1)
     for r in results:
         if r.get('problems'):
             n += 1
             if n <= 3:
-                ctx.violation('C16 monitor on the implementation: ' + r['problems'][0],
+                ctx.violation('C16 monitor on the implementation: ' + headline(r['problems']),
                               {'kind': 'case', 'which': r['kind'], 'case_seed': r['seed'], 'problems': r['problems'][:5]},
                               found_input=True)
     ctx.monitor['monitor_records'] = ctx.monitor.get('monitor_records', 0) + n
@@ -144,6 +154,9 @@ def correspondence(ctx):
         'result of tryAcquire arrives later than autoUnlock/2: told False; if the replicated acquire succeeded, '
         'exactly one release is issued and once applied the client no longer holds the lock',
         'release by a non-holder leaves the dict unchanged',
+        'snapshot replica (every table-level log): a fresh _ReplLockManagerImpl restored at a random step from '
+        'pickle(_serialize()) has the same table as the original at the snapshot and after every later command, returns '
+        'the same values, and at every probe no two different clients hold one lock, one on each replica',
         'acquire stamped more than autoUnlock after the lease time returns True',
     ]
     for kind in ('a', 'b'):
@@ -174,6 +187,10 @@ def correspondence(ctx):
         'oracle: builtin dict (get / item assignment / del / insertion-order iteration) is modelled by the association '
         'list of Lock/Base.v; lock and client ids are integers (the code only uses == and dict keys on them); times are '
         'integer-valued, so the float subtractions and comparisons with autoUnlock, autoUnlock/2.0, autoUnlock/4.0 are exact',
+        'SyncObjConsumer._serialize/_deserialize faithfulness for the lock table (a snapshot carries the whole table) is '
+        'NOT proved: C16_snapshot_transparent only says that replaying a suffix on the table reached after a prefix equals '
+        'replaying the whole log; that a restored replica really starts from that table is checked by the snapshot-replica '
+        'monitor on the implementation (every table-level case and the failing-input search)',
         'modelled, not verified: SyncObj itself (commit order, delivery of results, loss of commands) is played by the '
         'harness (harness/locks.py); threading of the prolongation loop is replaced by calling its body one iteration at a time',
     ]
@@ -199,18 +216,18 @@ def search(ctx):
     """after a broken obligation / divergence: more budget on the implementation under the monitors"""
     B = K.load_impl()
     base = (ctx.seed * 7919 + 17) % (2 ** 31)
-    n = 4000 if ctx.quick else 40000
+    n = 30000 if ctx.quick else 300000
     hits = 0
     for i in range(n):
         for kind in ('a', 'b'):
-            if kind == 'b' and i % 4:
+            if kind == 'b' and i % 8:
                 continue
             try:
                 c = K.run_table_case(base + i, B) if kind == 'a' else K.run_client_case(base + i, B)
             except Exception:
                 continue
             if c['problems']:
-                ctx.violation('C16 monitor on the implementation: ' + c['problems'][0],
+                ctx.violation('C16 monitor on the implementation: ' + headline(c['problems']),
                               {'kind': 'case', 'which': kind, 'case_seed': base + i, 'problems': c['problems'][:5]},
                               found_input=True)
                 hits += 1
@@ -231,3 +248,21 @@ def replay(ctx, data):
         return 0
     print('nothing to replay for', data.get('kind'))
     return 0
+
+
+# ---- the lock table through a replicated cluster with compaction, snapshot catch-up and restarts ----
+_corr_direct = correspondence
+_replay_direct = replay
+
+
+def correspondence(ctx):
+    _corr_direct(ctx)
+    from props import cluster_ext
+    cluster_ext.run(ctx, want_lock=True)
+
+
+def replay(ctx, data):
+    if data.get('kind') == 'cluster_batteries':
+        from props import cluster_ext
+        return cluster_ext.replay(ctx, data)
+    return _replay_direct(ctx, data)
